@@ -27,7 +27,7 @@ META = {
 RESETS = ["rollback", "commit", "none"]
 
 
-def oracle(ops, records, reset):
+def oracle(ops, records, reset, engine_opts="none"):
     """The property itself: at every checkout (the initial one and every `N`) the DBAPI
     connection handed out sees exactly the committed rows and is not in AUTOCOMMIT —
     unless reset_on_return is disabled.  -> (key, step, why) or None"""
@@ -47,28 +47,43 @@ def oracle(ops, records, reset):
             continue
         if o["working"] != o["committed"]:
             return (classify(ops[: i + 1]), i, "checkout at step %d hands out a DBAPI connection that sees rows %s while %s are committed (uncommitted work of an earlier user)" % (i, o["working"], o["committed"]))
-        if o["rid"].endswith("a"):
-            return (classify(ops[: i + 1]), i, "checkout at step %d hands out a DBAPI connection still in AUTOCOMMIT" % i)
+        flags = o["rid"].lstrip("0123456789")
+        want_auto = "auto" in engine_opts  # engine-wide AUTOCOMMIT is re-applied to every new Connection
+        if ("a" in flags) != want_auto:
+            return (classify(ops[: i + 1]), i, "checkout at step %d hands out a DBAPI connection with autocommit=%s, engine default %s (isolation level left by an earlier user)" % (i, "a" in flags, want_auto))
+        if "u" in flags:
+            return (classify(ops[: i + 1]), i, "checkout at step %d hands out a DBAPI connection still in READ UNCOMMITTED" % i)
     return None
 
 
 def classify(ops):
-    """specific key for a violating history"""
-    # the (fixed) F7 shape: a COMMIT failed, then close() with the inactive transaction attached
-    for i, t in enumerate(ops):
-        if t in ("Fce",):
-            rest = ops[i + 1:]
-            if any(x == "C" or x.startswith("c") or x.startswith("o") for x in rest) and "X" in rest:
-                return "failed-commit-then-close"
+    """specific key for a violating history: the (fixed) F7 shape is "in the session before
+    the offending checkout a COMMIT failed with a non-disconnect error and the Connection was
+    then close()d with the inactive transaction still attached" """
+    sess = ops[:-1] if ops and ops[-1] == "N" else ops
+    if "N" in sess:
+        sess = sess[len(sess) - sess[::-1].index("N"):]
+    if "Fce" in sess and "X" in sess and not any(t in ("G", "I", "A", "U", "LA") or t.endswith("k") for t in sess):
+        i = sess.index("Fce")
+        rest = sess[i + 1:]
+        if any(x == "C" or x[0] in "co" for x in rest) and rest[-1] == "X":
+            return "failed-commit-then-close"
     return "c24-oracle"
 
 
 # ---------------------------------------------------------------- generator
-def gen_sessions(rng, world, nsess, reset="rollback", queue=True):
+def gen_sessions(rng, world, nsess, reset="rollback", queue=True, chars=False, kbi=False):
     k = 1
     for s in range(nsess):
-        auto = rng.random() < 0.12
-        if auto:
+        auto = False
+        if chars and rng.random() < 0.45:
+            # several execution_options() calls in varying order
+            for _ in range(rng.randint(1, 3)):
+                t = rng.choice(["A", "U", "L", "O", "LA", "L", "A"])
+                auto = auto or t in ("A", "LA", "U")
+                yield t
+        elif rng.random() < 0.12:
+            auto = True
             yield "A"
         if queue and reset != "none" and rng.random() < 0.15:
             yield "W%d" % rng.randint(1, 2)
@@ -119,6 +134,10 @@ def gen_sessions(rng, world, nsess, reset="rollback", queue=True):
                 yield rng.choice("crxeof") + str(rng.randrange(nh))
             else:
                 yield "q"
+        if kbi and rng.random() < 0.35:
+            # a BaseException (KeyboardInterrupt / CancelledError) raised by the DBAPI while
+            # the pool resets the connection
+            yield "F" + ("c" if reset == "commit" else "r") + "k"
         # how the user lets go of the connection
         r = rng.random()
         if r < 0.45:
@@ -137,14 +156,17 @@ def gen_sessions(rng, world, nsess, reset="rollback", queue=True):
     yield "q"
 
 
-def run_history(rng, nsess, reset, poolclass="QueuePool"):
+def run_history(rng, nsess, reset, poolclass="QueuePool", engine_opts="none", chars=False, kbi=False):
     from harness import lib_txn
 
-    w = lib_txn.World(reset, "c24", poolclass)
+    w = lib_txn.World(reset, "c24", poolclass, engine_opts=engine_opts)
     ops, recs = [], []
     try:
-        for tok in gen_sessions(rng, w, nsess, reset, queue=(poolclass == "QueuePool")):
+        for tok in gen_sessions(rng, w, nsess, reset, queue=(poolclass == "QueuePool"), chars=chars, kbi=kbi):
             if w.gone and tok not in ("N", "D") and not tok.startswith("F"):
+                continue
+            if recs and recs[-1].startswith("KBI") and tok != "N":
+                # after an interrupt the program does not go on using the connection
                 continue
             ops.append(tok)
             recs.append(w.step(tok))
@@ -153,10 +175,15 @@ def run_history(rng, nsess, reset, poolclass="QueuePool"):
     return ops, recs
 
 
-def replay_ops(ops, reset, poolclass="QueuePool"):
+def replay_ops(ops, reset, poolclass="QueuePool", engine_opts="none"):
     from harness import lib_txn
 
-    return lib_txn.run_ops(ops, reset, "c24r", poolclass)
+    return lib_txn.run_ops(ops, reset, "c24r", poolclass, engine_opts=engine_opts)
+
+
+def modelled(ops, engine_opts):
+    """histories the Lean model covers (the rest is checked by the oracle only)"""
+    return engine_opts == "none" and not any(t in ("L", "U", "O", "LA") or (t[0] == "F" and t[2] == "k") for t in ops)
 
 
 FIXED = [
@@ -196,18 +223,19 @@ def run(ctx, deep=False):
     big = ctx.tier == "thorough" or deep
     cases, impl_out, reqs = [], [], []
 
-    def check(ops, recs, reset, poolclass="QueuePool"):
-        case = {"ops": ops, "reset": reset, "pool": poolclass}
+    def check(ops, recs, reset, poolclass="QueuePool", engine_opts="none"):
+        case = {"ops": ops, "reset": reset, "pool": poolclass, "engine_opts": engine_opts}
         nontrivial = any(t in ("G", "A", "I") or t.startswith("F") for t in ops) or "N" in ops
         ctx.case(reset + ":" + poolclass + ":" + ";".join(ops), nontrivial=nontrivial)
         ctx.count("reset=" + reset)
         ctx.count("pool=" + poolclass)
         for t in ops:
             ctx.count("op=" + (t if t[0] in "FWAGNXI" else t[0]))
-        bad = oracle(ops, recs, reset)
+        ctx.count("engine_opts=" + engine_opts)
+        bad = oracle(ops, recs, reset, engine_opts)
         if bad:
-            ctx.violation(bad[0], {"ops": ops[: bad[1] + 1], "reset": reset, "pool": poolclass}, bad[2])
-        if poolclass == "QueuePool":
+            ctx.violation(bad[0], {"ops": ops[: bad[1] + 1], "reset": reset, "pool": poolclass, "engine_opts": engine_opts}, bad[2])
+        if poolclass == "QueuePool" and modelled(ops, engine_opts):
             cases.append(case)
             impl_out.append("|".join(recs) if recs else "-")
             reqs.append(lib_txn.driver_line(ops, reset))
@@ -228,6 +256,17 @@ def run(ctx, deep=False):
         pc = ctx.rng.choice(OTHER_POOLS)
         ops, recs = run_history(ctx.rng, ctx.rng.randint(1, 4), reset, pc)
         check(ops, recs, reset, pc)
+    # connection characteristics (several execution_options calls, engine- and connection-level)
+    # and BaseException during reset-on-return, on every pool class: oracle only
+    n3 = 2400 if big else 300
+    for i in range(n3):
+        reset = ctx.rng.choice(["rollback", "rollback", "commit"])
+        pc = ctx.rng.choice(["QueuePool", "QueuePool"] + OTHER_POOLS)
+        eo = ctx.rng.choice(["none", "none", "token", "auto", "token+auto"])
+        ops, recs = run_history(ctx.rng, ctx.rng.randint(1, 4), reset, pc, eo, chars=True, kbi=ctx.rng.random() < 0.4)
+        check(ops, recs, reset, pc, eo)
+        if i % 150 == 0:
+            ctx.sample({"reset": reset, "pool": pc, "engine_opts": eo, "ops": ";".join(ops), "last": recs[-1]})
     if ctx.driver_ok():
         ctx.correspond("corr/c24:pool-reset-vs-Model.Txn", cases, impl_out, ctx.driver(reqs))
 
@@ -235,10 +274,10 @@ def run(ctx, deep=False):
 def search(ctx, broken):
     for d in ctx.disagreements:
         c = d["case"]
-        recs = replay_ops(c["ops"], c["reset"], c.get("pool", "QueuePool"))
-        bad = oracle(c["ops"], recs, c["reset"])
+        recs = replay_ops(c["ops"], c["reset"], c.get("pool", "QueuePool"), c.get("engine_opts", "none"))
+        bad = oracle(c["ops"], recs, c["reset"], c.get("engine_opts", "none"))
         if bad:
-            ctx.violation(bad[0], {"ops": c["ops"][: bad[1] + 1], "reset": c["reset"], "pool": c.get("pool", "QueuePool")}, bad[2])
+            ctx.violation(bad[0], {"ops": c["ops"][: bad[1] + 1], "reset": c["reset"], "pool": c.get("pool", "QueuePool"), "engine_opts": c.get("engine_opts", "none")}, bad[2])
     sub = type(ctx)(ctx.pid, "thorough", ctx.seed + 1, ctx.level)
     run(sub, deep=True)
     ctx.violations.extend(sub.violations)
@@ -246,9 +285,10 @@ def search(ctx, broken):
 
 def replay(ctx, obj):
     c = obj["case"]
-    recs = replay_ops(c["ops"], c["reset"], c.get("pool", "QueuePool"))
-    bad = oracle(c["ops"], recs, c["reset"])
-    print("replay C24 reset=%s pool=%s ops=%s" % (c["reset"], c.get("pool", "QueuePool"), ";".join(c["ops"])))
+    eo = c.get("engine_opts", "none")
+    recs = replay_ops(c["ops"], c["reset"], c.get("pool", "QueuePool"), eo)
+    bad = oracle(c["ops"], recs, c["reset"], eo)
+    print("replay C24 reset=%s pool=%s engine_opts=%s ops=%s" % (c["reset"], c.get("pool", "QueuePool"), eo, ";".join(c["ops"])))
     for t, r in zip(c["ops"], recs):
         print("  %-5s %s" % (t, r))
     print("oracle:", bad)
